@@ -279,7 +279,7 @@ def rule_escape(run, F, cfg):
     ufmt = []
     for b, t in w.calls(r"^std::vec::Vec::extend_from_slice$"):
         c = dominating_conditions(w, b)
-        if any(re.search(r"ESCAPED\[_\] Eq 117\)$", k) and v == 1 for k, v in c.items()):
+        if any(re.search(r"ESCAPED\[\(.*Iterator>::next\(.*\)@Some\.0\.1 as usize\)\] Eq 117\)$", k) and v == 1 for k, v in c.items()):
             ufmt.append((b, w.expr_operand(t["args"][1])))
     oku = len(ufmt) == 1
     if oku:
